@@ -33,3 +33,8 @@ func findCheck(id string) *Check {
 // BlockBufferSize (4 MiB scratch buffers allocated by every Persist) is rewritten to 4 KiB: it only sizes buffers.
 var schedTrack = Build{Kind: "sched", Coarse: []string{"rbmutex.go", "counter.go", "buffer.go"}, Track: true,
 	Consts: map[string]string{"persistence.go:BlockBufferSize": "4096"}}
+
+// schedTrackBuf: like schedTrack but the read buffer's atomics ARE scheduling points and its capacity is 2,
+// so that drain / Free / refill interleave under the happens-before monitor.
+var schedTrackBuf = Build{Kind: "sched", Coarse: []string{"rbmutex.go", "counter.go"}, Track: true,
+	Consts: map[string]string{"persistence.go:BlockBufferSize": "4096", "buffer.go:capacity": "2"}}
